@@ -39,7 +39,7 @@ class Ctx:
         if len(self.samples) < 6 and self.families[family] <= 1:
             self.samples.append(dict(family=family, script=[l if len(l) < 200 else l[:200] + "…" for l in case[:12]]))
 
-    def absolute(self, family, cases, mask=None, nontrivial=None):
+    def absolute(self, family, cases, mask=None, nontrivial=None, stop_at_blocked=False):
         """run the same cases through the real crates and the Lean model and compare.
         mask(cmd) -> True for lines that are executed but not compared."""
         if not cases:
@@ -52,6 +52,8 @@ class Ctx:
             for i, (cmd, x, y) in enumerate(zip(c, ho, mo)):
                 if mask and mask(cmd):
                     continue
+                if stop_at_blocked and x == "blocked" and y == "blocked":
+                    break
                 if x != y:
                     self.disagreements.append(dict(family=family, case=c, line=i, cmd=cmd, impl=x, model=y))
                     break
